@@ -24,12 +24,31 @@ vh::Outcome run_c14(const vh::Case& c) {
     using COW = lg::cow_guarded<Tracked>;
     using List = lg::rcu_list<Tracked, vstd::mutex, vrt::QAlloc<Tracked>>;
     using RCU = lg::rcu_guarded<List>;
+    using ListS = lg::rcu_list<Tracked, vstd::mutex, vrt::QAllocS<Tracked>>;      // stateful allocator (is_always_equal == false)
+    using RCUS = lg::rcu_guarded<ListS>;
+    bool stateful_alloc = c.cfg.size() > 5 && c.cfg[5] == 1;
 
     out.res = vrt::run(c.sched, [&] {
         LR lr(uint64_t(1));
         COW cow(uint64_t(1));
         RCU rl;
+        RCUS rls{vrt::QAllocS<Tracked>(3)};
         { auto h = rl.lock_write(); for (int i = 0; i < 3; ++i) h->push_back(Tracked(uint64_t(10 + i))); }
+        { auto h = rls.lock_write(); for (int i = 0; i < 3; ++i) h->push_back(Tracked(uint64_t(10 + i))); }
+        auto rcu_write = [&](auto& L) {
+            switch (wop) {
+                case W_RCU_PUSH_FRONT: { auto h = L.lock_write(); h->push_front(Tracked(uint64_t(20))); break; }
+                case W_RCU_PUSH_BACK: { auto h = L.lock_write(); h->emplace_back(uint64_t(21)); break; }
+                default: { auto h = L.lock_write(); auto it = h->begin(); ++it; h->erase(it); break; }
+            }
+        };
+        auto rcu_read = [&](auto& L) {
+            auto h = L.lock_read();
+            int n = 0;
+            for (auto it = h->begin(); it != h->end(); ++it) { vrt::check_live_addr(&*it, "iterator dereference"); (void)it->read(); ++n; }
+            if (n < 2) vrt::fail("traversal-short", "a solo traversal saw fewer elements than are stably in the list");
+            return h;     // the caller keeps the handle (guaranteed copy elision)
+        };
         bool writer_done = false;
         bool release_readers = false;
         int readers_inside = 0;
@@ -38,9 +57,7 @@ vh::Outcome run_c14(const vh::Case& c) {
                 case W_LR_MODIFY: lr.modify([](Tracked& t) { t.or_bits(2); }); break;
                 case W_COW_COMMIT: { auto h = cow.lock(); h->or_bits(2); h.reset(); break; }
                 case W_COW_LOCK: { auto h = cow.lock(); h->or_bits(2); h.cancel(); break; }
-                case W_RCU_PUSH_FRONT: { auto h = rl.lock_write(); h->push_front(Tracked(uint64_t(20))); break; }
-                case W_RCU_PUSH_BACK: { auto h = rl.lock_write(); h->emplace_back(uint64_t(21)); break; }
-                default: { auto h = rl.lock_write(); auto it = h->begin(); ++it; h->erase(it); break; }
+                default: if (stateful_alloc) rcu_write(rls); else rcu_write(rl); break;
             }
             writer_done = true;
         });
@@ -93,11 +110,8 @@ vh::Outcome run_c14(const vh::Case& c) {
                     (void)s->read();
                     acquired();
                 } else {
-                    auto h = rl.lock_read();
-                    int n = 0;
-                    for (auto it = h->begin(); it != h->end(); ++it) { vrt::check_live_addr(&*it, "iterator dereference"); (void)it->read(); ++n; }
-                    if (n < 2) vrt::fail("traversal-short", "a solo traversal saw fewer elements than are stably in the list");
-                    acquired();
+                    if (stateful_alloc) { auto h = rcu_read(rls); acquired(); }        // release (which may reclaim) also happens while the writer may still be frozen
+                    else { auto h = rcu_read(rl); acquired(); }
                 }
                 (void)r;
             }));
@@ -126,6 +140,7 @@ vh::Outcome run_c14(const vh::Case& c) {
     if (writer_waited) out.labels.push_back("writer-waited-for-reader");
     if (hold_across_thaw) out.labels.push_back("held-across-thaw");
     if (relay) out.labels.push_back("reader-relay");
+    if (stateful_alloc && wop >= W_RCU_PUSH_FRONT) out.labels.push_back("stateful-allocator");
     out.nontrivial = frozen_inside || writer_waited;
     out.sig = (uint64_t)wop * 1000 + (uint64_t)k;
     return out;
@@ -133,7 +148,7 @@ vh::Outcome run_c14(const vh::Case& c) {
 
 vh::GenSpec spec(bool th) {
     vh::GenSpec g; g.nfibers = 1; g.max_ops = 1; g.ncodes = 1; g.amax = 1; g.bmax = 1;
-    g.cfg_max = {W_NOPS, 48, 3, 2, 4};
+    g.cfg_max = {W_NOPS, 48, 3, 2, 4, 2};
     g.sched_len = th ? 96 : 64; g.aux_len = 8;
     return g;
 }
